@@ -262,18 +262,30 @@ class FakeNumpyRandom(Fake):
         self.np = real_np
         self.menus = menus or {}
         self.log = log if log is not None else []
+        self._scalar_i = 0
 
     def seed(self, s=None):
         self.log.append(("np.seed", s))
 
+    def _scalar(self, label):
+        """a scalar uniform draw: comparison-only coin by default; with a 'scalar_seq' menu (a vector drawn one entry at a
+        time instead of through one array call) the next entry of that sequence"""
+        seq = self.menus.get("scalar_seq")
+        if seq is None:
+            return CoinFloat(self.ch, label)
+        if self._scalar_i >= len(seq):
+            raise UnownedRandomness("%s: more scalar draws than the scripted vector has entries" % label)
+        self._scalar_i += 1
+        return float(seq[self._scalar_i - 1])
+
     def random(self, size=None):
         if size is None:
-            return CoinFloat(self.ch, "np.random")
+            return self._scalar("np.random")
         return self._menu("random", size)
 
     def rand(self, *shape):
         if not shape:
-            return CoinFloat(self.ch, "np.rand")
+            return self._scalar("np.rand")
         return self._menu("rand", shape)
 
     def randn(self, *shape):
@@ -363,7 +375,7 @@ class FakeNumpyRandom(Fake):
     def uniform(self, low=0.0, high=1.0, size=None):
         if size is None:
             if (low, high) == (0.0, 1.0):
-                return CoinFloat(self.ch, "np.uniform")
+                return self._scalar("np.uniform")
             raise UnownedRandomness("np.random.uniform(%r, %r) scalar" % (low, high))
         return self._menu("uniform", size)
 
@@ -414,6 +426,14 @@ class FakeGenerator(Fake):
 
     def normal(self, loc=0.0, scale=1.0, size=None):
         return self._menu("normal", loc, scale)
+
+    def standard_exponential(self, size=None, *a, **k):
+        """unit-mean exponential draws: the 'exponential' menu asked for scale 1 of the requested shape"""
+        if "standard_exponential" in self.menus:
+            return self._menu("standard_exponential", size)
+        if size is None:
+            raise UnownedRandomness("%s.standard_exponential() scalar draw needs a value menu" % self.tag)
+        return self._menu("exponential", self.np.ones(size), size)
 
     def poisson(self, lam=1.0, size=None):
         r = self._menu("poisson", lam)
